@@ -45,6 +45,8 @@ func (c *Ctx) Dump(what string) {
 	case "fold":
 		k, _ := strconv.Atoi(os.Getenv("K"))
 		c.DumpFold(os.Getenv("FN"), int64(k))
+	case "roots":
+		c.DumpRoots(os.Getenv("FN"))
 	case "nodes":
 		for _, n := range c.NodeTypes() {
 			fmt.Println(n.Obj().Name())
@@ -77,5 +79,27 @@ func (c *Ctx) DumpFold(fname string, k int64) {
 				fmt.Printf("   %s\n", in)
 			}
 		}
+	}
+}
+
+func (c *Ctx) DumpRoots(fname string) {
+	for _, g := range c.P.ModFuncs {
+		if c.P.FuncKey(g) != fname {
+			continue
+		}
+		instrs(g, func(b *ssa.BasicBlock, i int, in ssa.Instruction) {
+			if call, ok := in.(*ssa.Call); ok {
+				fmt.Printf("%s: callee=%v\n", in, calleeOf(call))
+				for _, a := range call.Call.Args {
+					for _, rt := range plainOrigins.Roots(a) {
+						fn := "-"
+						if rt.Fn != nil {
+							fn = rt.Fn.String() + " name=" + rt.Fn.Name() + " recv=" + typeName(recvType(rt.Fn))
+						}
+						fmt.Printf("    arg %s root %s fn=%s\n", a.Name(), rt, fn)
+					}
+				}
+			}
+		})
 	}
 }
